@@ -132,7 +132,16 @@ def run(ctx):
 
     # ---- R07.2
     ctors = [f for f in methods if f.kind == "ctor" and (f.flags.get("copy_ctor") or f.flags.get("move_ctor"))]
-    ctx.need("R07.2", "copy/move constructors", len(ctors), 2)
+    n_default = 0
+    for op in ("copy_ctor", "move_ctor"):
+        sp = cls.get("special", {}).get(op)
+        if sp and not sp.get("deleted") and not sp.get("user_provided") and (sp.get("defaulted") or sp.get("implicit")) and not any(f.flags.get(op) for f in ctors):
+            n_default += 1
+            if op == "move_ctor":
+                ctx.ok("R07.2", FV, "transfers-all-fields:%s=default" % op, "compiler-generated member-wise move transfers size_, capacity_ and data_ (the state of the source afterwards is C06's R06.7)", "%s:%d" % (cls["file"], cls["line"]))
+            else:
+                ctx.bad("R07.2", FV, "transfers-all-fields:%s=default" % op, "a compiler-generated copy constructor cannot copy the unique_ptr storage", "%s:%d" % (cls["file"], cls["line"]))
+    ctx.need("R07.2", "copy/move constructors", len(ctors) + n_default, 2)
     for f in ctors:
         tag = C06._sig(f)
         src = f.params[0]["name"]
